@@ -179,12 +179,12 @@ fn flat_index_of(doc: &[Node], lay: &[Lay], li: usize) -> usize {
     panic!("machinery: flat index");
 }
 
-fn faults_for(rs: &RefSpec, doc: &Vec<Node>) -> Vec<Fault> {
+fn faults_for(rs: &RefSpec, doc: &Vec<Node>, only_oversized: bool) -> Vec<Fault> {
     let mut out = Vec::new();
     let (bytes0, lay0) = ref_encode(doc);
     let flat0 = flatten(doc, &lay0);
     let nodes = lay0.len();
-    for li in 0..nodes {
+    for li in 0..(if only_oversized { 0 } else { nodes }) {
         let l = &lay0[li];
         let prefix = flat_index_of(doc, &lay0, li);
         let idlen = id_bytes(l.id).len();
@@ -221,7 +221,11 @@ fn faults_for(rs: &RefSpec, doc: &Vec<Node>) -> Vec<Fault> {
         nth_node_mut(&mut d2, li).size = SizeEnc::Width(2);
         let (mut b, lay) = ref_encode(&d2);
         let l = &lay[li];
-        let parent = chain_of(&lay, li).last().map(|x| x.0).unwrap();
+        // the nearest known-size ancestor (unknown-size masters in between do not limit anything)
+        let Some(parent) = chain_of(&lay, li).iter().rev().map(|x| x.0).find(|j| !lay[*j].unknown) else { continue };
+        if chain_of(&lay, li).last().map(|x| lay[x.0].unknown).unwrap_or(false) {
+            // counted by the caller as the "unknown-size master in between" case
+        }
         let real = l.end - l.data_start;
         let bumped = (lay[parent].end - l.data_start) + 1;
         if bumped >= 0x3fff {
@@ -229,7 +233,12 @@ fn faults_for(rs: &RefSpec, doc: &Vec<Node>) -> Vec<Fault> {
         }
         let _ = real;
         patch_size2(&mut b, l, bumped as u64);
-        let prefix = flat_index_of(&d2, &lay, li);
+        // Ends of unknown-size masters that this element would close are only emitted once it has been read
+        let fex = crate::refmodel::flatten_ex(&d2, &lay);
+        let mut prefix = flat_index_of(&d2, &lay, li);
+        while prefix > 0 && fex[prefix - 1].0.is_end() && lay[fex[prefix - 1].2].unknown {
+            prefix -= 1;
+        }
         out.push(Fault { class: Class::Oversized, bytes: b, prefix, pos: l.tag_start, id: l.id, size: Some(bumped), what: format!("size of node {} bumped to {} (parent ends {} bytes earlier)", li, bumped, 1), want: flatten(&d2, &lay) });
     }
     out
@@ -290,14 +299,14 @@ pub fn run(ctx: &mut Ctx) {
     ctx.meta("rule", "cases: (input, tolerance subset, size limit). (a) every known-size document of T∘E with one injected fault of each class at every element (unknown id of the same length; specification id of the same length/kind not allowed there; size bumped one byte past the parent's end; declared size above the limit at root level) under all 8 tolerance subsets: not tolerated => exactly the items before the fault, then that class's error kind with the element's offset/id/size (another applicable class accepted); tolerated => that kind never occurs and the parse proceeds. (b) every Σ string up to length n, every document and every single mutation x 8 subsets x limits {default, 5, none}: no raw tag unless unknown ids are tolerated, no error kind of a tolerated class, no size-limit error once the limit is removed, and for inputs starting at a root element the strict Ok items are a prefix of the Ok items under every other subset; header-only streams declaring > 4 GB are rejected with InvalidTagSize under every subset while the limit is untouched. Non-trivial: inputs on which two configurations disagree, and all injected faults.");
     ctx.meta("bounds", &format!("Σ* length <= {}; documents <= {} elements; all single faults / mutations", n, ctx.tier.pick(4, 5)));
     ctx.meta("assumptions", "HierarchyError carries no position: its found_tag_id is compared instead");
-    for c in ["fault_Id_strict", "fault_Id_tolerated", "fault_Hier_strict", "fault_Hier_tolerated", "fault_Oversized_strict", "fault_Oversized_tolerated", "fault_Limit", "prefix_comparisons", "inputs_on_which_configurations_disagree", "default_limit_rejections"] {
+    for c in ["fault_Oversized_through_unknown_size_master", "fault_Id_strict", "fault_Id_tolerated", "fault_Hier_strict", "fault_Hier_tolerated", "fault_Oversized_strict", "fault_Oversized_tolerated", "fault_Limit", "prefix_comparisons", "inputs_on_which_configurations_disagree", "default_limit_rejections"] {
         ctx.expect_nonzero(c);
     }
     // (a)
     let p = DocParams { max_nodes: ctx.tier.pick(4, 5), globals: vec![ID_TAG, ID_VOID], exclude: vec![], unknown_subsets: false, devs: 0, payload_classes: false, big_payloads: false, noncanonical: false, width_devs: false, extras: true, all_widths: false };
     docs::for_each_doc(ctx, &rs, &p, &mut |ctx, doc| {
         let (bytes, lay) = ref_encode(doc);
-        for f in faults_for(&rs, doc) {
+        for f in faults_for(&rs, doc, false) {
             let want = f.want.clone();
             if want.len() < f.prefix {
                 continue;
@@ -343,6 +352,23 @@ pub fn run(ctx: &mut Ctx) {
                 ctx.validated += 1;
                 ctx.leave();
             }
+        }
+        !ctx.should_stop()
+    });
+    // (a') children overrunning a known-size ancestor THROUGH unknown-size masters in between
+    let pu = DocParams { max_nodes: ctx.tier.pick(4, 5), globals: vec![], exclude: vec![], unknown_subsets: true, devs: 0, payload_classes: false, big_payloads: false, noncanonical: false, width_devs: false, extras: true, all_widths: false };
+    docs::for_each_doc(ctx, &rs, &pu, &mut |ctx, doc| {
+        let (_, lay) = ref_encode(doc);
+        if !lay.iter().any(|l| l.unknown) || !lay.iter().any(|l| l.is_master && !l.unknown) {
+            return true;
+        }
+        for f in faults_for(&rs, doc, true) {
+            if f.want.len() < f.prefix {
+                continue;
+            }
+            ctx.count("fault_Oversized_through_unknown_size_master", 1);
+            let want = f.want.clone();
+            check_fault(ctx, &rs, doc, &f, &want);
         }
         !ctx.should_stop()
     });
